@@ -21,6 +21,7 @@ import z3
 
 I = z3.IntSort()
 B = z3.BoolSort()
+BIT = z3.Function("bit", I, I, I)  # bit(v, j) = (v >> j) & 1 for v >= 0, j >= 0 (see Engine._bit_extract)
 _ctr = itertools.count()
 
 
@@ -571,7 +572,26 @@ class Engine:
             return BoundMethod(base, n.attr)
         return self.model.attr(self, st, base.path, n.attr, n)
 
+    def _bit_extract(self, n, st):
+        """(X & (1 << J)) >> J with a symbolic shift J (a plain name): on Python integers with X >= 0 and J >= 0 this is exactly
+        bit J of X.  It is rendered as bit(X, J), an uninterpreted function: the specification side of the contract uses the same
+        function, and the contract supplies the (true, table-checked) facts about it that the proof needs."""
+        if not (isinstance(n.op, ast.RShift) and isinstance(n.right, ast.Name) and isinstance(n.left, ast.BinOp) and isinstance(n.left.op, ast.BitAnd)):
+            return None
+        for x_node, m_node in ((n.left.left, n.left.right), (n.left.right, n.left.left)):
+            if (isinstance(m_node, ast.BinOp) and isinstance(m_node.op, ast.LShift) and isinstance(m_node.left, ast.Constant) and type(m_node.left.value) is int
+                    and m_node.left.value == 1 and isinstance(m_node.right, ast.Name) and m_node.right.id == n.right.id):
+                xv, jv = self.ev(x_node, st), self.ev(n.right, st)
+                if not (isinstance(xv, IntV) and isinstance(jv, IntV)) or z3.is_int_value(z3.simplify(jv.e)):
+                    return None
+                self.ob("encoding.bitop_nonneg", st, z3.And(xv.e >= 0, jv.e >= 0), n)
+                return IntV(BIT(xv.e, jv.e), (0, 1))
+        return None
+
     def ev_BinOp(self, n, st):
+        bx = self._bit_extract(n, st)
+        if bx is not None:
+            return bx
         l, r = self.ev(n.left, st), self.ev(n.right, st)
         op = type(n.op).__name__
         if isinstance(l, OpaqueV) or isinstance(r, OpaqueV):
